@@ -396,6 +396,13 @@ def check_d(ctx, facts, body, tier, seed):
             bad = co_simulate(facts, c, s, cfg, text, ports, names, ink, outk, depth, seed, b)
             nseq += bad[1]
             if bad[0] is not None:
+                if bad[0].port is not None and len(ink) <= 12:
+                    # the key of a finding must not depend on which sampled sequence met it first: prefer the canonical single-edge witness
+                    pr = co_simulate(facts, c, s, cfg, text, ports, names, ink, outk, depth, seed, b, probe=True)
+                    if pr[0] is not None and pr[0].port is not None:
+                        bad = pr
+                    else:
+                        bad[0].extra = dict(bad[0].extra or {}, canonical_cycle='later')
                 diffs.append(bad[0])
                 break
         if diffs is None:
@@ -428,7 +435,7 @@ def check_d(ctx, facts, body, tier, seed):
                 ctx.ok('C01.e', cn, 'power-up outputs agree in %d configurations' % ncfg, grade='bounded')
         if diffs:
             d0 = diffs[0]
-            key_d = '%s:%s' % (cn, ('%s@edge%s' % (showp(d0.port), (d0.extra or {}).get('cycle'))) if d0.port is not None else d0.kind.split(':')[0][:40])
+            key_d = '%s:%s' % (cn, ('%s@edge%s' % (showp(d0.port), (d0.extra or {}).get('canonical_cycle', (d0.extra or {}).get('cycle')))) if d0.port is not None else d0.kind.split(':')[0][:40])
             ctx.violation('C01.d', key_d, 'the emitted body and clock() diverge: %s' % diffs[0].kind, where,
                           witness=dict(diffs[0].as_dict(), emitted=(last_text or '').strip()[:400]))
         else:
@@ -469,12 +476,15 @@ def seq_configs(b, cn, tier):
         yield cfg
 
 
-def co_simulate(facts, c, s, cfg, text, ports, names, ink, outk, depth, seed, b, skip_powerup=False):
+def co_simulate(facts, c, s, cfg, text, ports, names, ink, outk, depth, seed, b, skip_powerup=False, probe=False):
     """all input sequences up to `depth` (exhaustive when small, sampled otherwise); returns (Mismatch|None, n_sequences)"""
     import random
     ws = [cfg.width[k] for k in ink]
     space = 1 << sum(ws)
-    rnd = random.Random(seed + space)
+    # the short sequences come from a fixed stream: the first divergence found (and with it the key of a finding) must not depend on
+    # the seed of the run; the seed only varies the additional long runs
+    rnd = random.Random(1000003 + space)
+    rnd_long = random.Random(seed + space)
     cap = 4096 if depth >= 4 else 500
     if space ** depth <= cap:
         seqs = itertools.product(itertools.product(*[range(1 << w) for w in ws]), repeat=depth)
@@ -487,10 +497,13 @@ def co_simulate(facts, c, s, cfg, text, ports, names, ink, outk, depth, seed, b,
     def long_runs():
         # long biased runs: state that needs many edges to reach (counters / indices wrapping, deep addresses)
         for _ in range(16 if depth < 4 else 64):
-            bias = [rnd.choice((0.5, 0.9, 1.0)) for _ in ws]
-            yield tuple(tuple(((1 << w) - 1 if w == 1 else rnd.randrange(1 << w)) if rnd.random() < p_ else (0 if w == 1 else rnd.randrange(1 << w))
+            bias = [rnd_long.choice((0.5, 0.9, 1.0)) for _ in ws]
+            yield tuple(tuple(((1 << w) - 1 if w == 1 else rnd_long.randrange(1 << w)) if rnd_long.random() < p_ else (0 if w == 1 else rnd_long.randrange(1 << w))
                               for w, p_ in zip(ws, bias)) for _ in range(32))
     seqs = itertools.chain(seqs, long_runs())
+    if probe:
+        # canonical witness for the key of a finding: every single-edge sequence over the corner values of the inputs
+        seqs = ((vec,) for vec in itertools.product(*[sorted({0, (1 << w) - 1}) for w in ws]))
     nseq = 0
     clkname = 'clk'
     try:
